@@ -312,9 +312,15 @@ def run(rep, tier, seed, replay):
             base = unhx(c.f["base"]).rstrip("/")
             logs = c.f.get("logs", "-")
             fed = [unhx(x.split(":")[0]).rstrip("/") for x in walklib.items(logs.split("|")[0])] if logs != "-" else []
-            info[ci] = (progs, base, fed)
+            # every recorded node beneath the walk root that is not behind a link (links are read as files here)
+            root_r = "@R"
+            recn = walklib.rec_paths(c.f.get("rec", "-"), root_r)
+            linkp = [pp.rstrip("/") for pp, kk, _d in recn if kk.startswith("l")]
+            wroot = fed[0] if fed else None
+            recorded = [pp.rstrip("/") for pp, _k, _d in recn if wroot is not None and pp.startswith(wroot.rstrip("/") + "/") and not any(pp.startswith(l + "/") for l in linkp)]
+            info[ci] = (progs, base, fed, recorded, wroot)
             names = set()
-            for pth in fed:
+            for pth in fed + recorded:
                 comps = components(c, pth, base)
                 for i, nm in enumerate(comps[:-1]):          # proper ancestors only
                     if i < len(progs):
@@ -326,8 +332,25 @@ def run(rep, tier, seed, replay):
         for (ci, i, nm), line in zip(owner, hh.ask(reqs)):
             if line.startswith("nomatch"):
                 rejected.setdefault(ci, set()).add((i, nm))
-        for ci, (progs, base, fed) in info.items():
+        for ci, (progs, base, fed, recorded, wroot) in info.items():
             c = gobs[ci]
+            bad = None
+            # ONLY they are skipped: a recorded entry none of whose ancestors (below the walk root) is rejected by its component
+            # program is fed to the observer, whether or not the glob matches it
+            fedset = set(fed)
+            nroot = len(components(c, wroot, base)) if wroot is not None else 0
+            for pth in recorded:
+                comps = components(c, pth, base)
+                if any((i, nm) in rejected.get(ci, set()) for i, nm in enumerate(comps[:-1]) if i >= nroot):
+                    continue
+                if pth not in fedset:
+                    bad2 = (pth, wroot)
+                    rep.violation("oracle", "the observer after the glob walk is never fed %r although no directory between the walk root %r and it is rejected by its component program (it was skipped without being discarded)" % bad2,
+                                  c.describe(), impl=c.impl[:500])
+                    bad = "reported"
+                    break
+            if bad == "reported":
+                continue
             bad = None
             for pth in fed:
                 comps = components(c, pth, base)
